@@ -702,7 +702,7 @@ func c09Jobs(tier string) []Job {
 	}
 	// batches of configurations per job
 	var jobs []Job
-	per := 400
+	per := 200
 	for i := 0; i < len(all); i += per {
 		end := min(i+per, len(all))
 		b, _ := json.Marshal(all[i:end])
